@@ -39,8 +39,18 @@ pub fn policy(_tier: Tier, w: &Arc<World>) -> Scn {
     let (send, recv) = if distinct { (sandbox.dir("send"), sandbox.dir("recv")) } else { (sandbox.dir("srv"), sandbox.dir("srv")) };
     let mut srv = base_cfg(&d, &send);
     if distinct {
-        srv.send_dir = Some(send.clone());
-        srv.recv_dir = Some(recv.clone());
+        // a directory not named by its own flag falls back to -d
+        match d.range("swarm.dir_layout", 3) {
+            0 => {
+                srv.send_dir = Some(send.clone());
+                srv.recv_dir = Some(recv.clone());
+            }
+            1 => {
+                srv.dir = recv.clone();
+                srv.send_dir = Some(send.clone());
+            }
+            _ => srv.recv_dir = Some(recv.clone()),
+        }
     }
     srv.read_only = d.chance("swarm.read_only", 1, 4);
     srv.overwrite = d.chance("swarm.overwrite", 1, 2);
@@ -186,29 +196,42 @@ pub fn confine(_tier: Tier, w: &Arc<World>) -> Scn {
     let recvd = sandbox.root.join("outer/recv");
     let distinct = d.chance("swarm.distinct_dirs", 1, 2);
     let mut srv = base_cfg(&d, &served);
+    // which of -d / -sd / -rd name the two directories: a directory not named falls back to -d
+    let layout = if distinct { d.range("swarm.dir_layout", 3) } else { 0 };
     if distinct {
-        srv.send_dir = Some(served.clone());
-        srv.recv_dir = Some(recvd.clone());
+        match layout {
+            0 => {
+                srv.send_dir = Some(served.clone());
+                srv.recv_dir = Some(recvd.clone());
+            }
+            1 => {
+                srv.dir = recvd.clone();
+                srv.send_dir = Some(served.clone());
+            }
+            _ => srv.recv_dir = Some(recvd.clone()),
+        }
     }
     // how the directories are spelled on the command line: absolute, relative to the working
     // directory, or made of parent steps from a working directory below the served one
     let spelling = d.weighted("swarm.dir_spelling", &[3, 1, 1]);
-    if spelling == 1 {
-        let rel = |p: &std::path::Path| p.strip_prefix(crate::common::process_base()).map(|x| x.to_path_buf()).unwrap_or_else(|_| p.to_path_buf());
-        srv.dir = rel(&served);
-        srv.send_dir = srv.send_dir.as_ref().map(|p| rel(p));
-        srv.recv_dir = srv.recv_dir.as_ref().map(|p| rel(p));
-    } else if spelling == 2 {
+    if spelling == 2 {
         std::env::set_current_dir(served.join("sub")).expect("chdir into the sandbox");
-        srv.dir = std::path::PathBuf::from("../");
-        srv.send_dir = srv.send_dir.as_ref().map(|_| std::path::PathBuf::from("../"));
-        srv.recv_dir = srv.recv_dir.as_ref().map(|_| std::path::PathBuf::from("../../recv/"));
     }
+    let spell = |p: &std::path::Path| -> std::path::PathBuf {
+        match spelling {
+            1 => p.strip_prefix(crate::common::process_base()).map(|x| x.to_path_buf()).unwrap_or_else(|_| p.to_path_buf()),
+            2 => std::path::PathBuf::from(if p == served.as_path() { "../" } else { "../../recv/" }),
+            _ => p.to_path_buf(),
+        }
+    };
+    srv.dir = spell(&srv.dir);
+    srv.send_dir = srv.send_dir.as_ref().map(|p| spell(p));
+    srv.recv_dir = srv.recv_dir.as_ref().map(|p| spell(p));
     srv.overwrite = d.chance("swarm.overwrite", 1, 2);
     let (send, recv) = if distinct { (served.clone(), recvd.clone()) } else { (served.clone(), served.clone()) };
     let n = 2 + d.range("swarm.requests", 6) as usize;
     let mut reqs = vec![];
-    let mut desc = format!("confine {} distinct_dirs={distinct} dir_spelling={} names=[", srv.describe(), ["absolute", "relative", "parent-steps"][spelling]);
+    let mut desc = format!("confine {} distinct_dirs={distinct} layout={} dir_spelling={} names=[", srv.describe(), ["-d,-sd,-rd", "-d(recv),-sd", "-d(send),-rd"][layout as usize], ["absolute", "relative", "parent-steps"][spelling]);
     for i in 0..n {
         let write = d.chance("swarm.req.write", 1, 2);
         let name = draw_name(&d, &root);
@@ -299,6 +322,21 @@ pub fn options(_tier: Tier, w: &Arc<World>) -> Scn {
     if d.chance("opt.unknown.tail", 1, 5) {
         opts.push(("rollover".into(), "0".into()));
     }
+    // rarely a client names an option twice with different values; whatever is acknowledged is what is used
+    if d.chance("opt.repeat", 1, 8) {
+        let cands: Vec<usize> = opts.iter().enumerate().filter(|(_, (k, v))| ["blksize", "timeout", "windowsize"].contains(&k.to_ascii_lowercase().as_str()) && numeric(v).map_or(false, |n| honourable(&k.to_ascii_lowercase(), n))).map(|(i, _)| i).collect();
+        if !cands.is_empty() {
+            let i = cands[d.range("opt.repeat.which", cands.len() as u32) as usize];
+            let name = opts[i].0.to_ascii_lowercase();
+            let other = match name.as_str() {
+                "blksize" => d.pick("opt.repeat.blksize", &["1024", "64", "2048", "8", "600"]),
+                "timeout" => d.pick("opt.repeat.timeout", &["2", "7", "1", "4"]),
+                _ => d.pick("opt.repeat.windowsize", &["4", "1", "2", "7", "16"]),
+            };
+            let at = if d.chance("opt.repeat.before", 1, 2) { i } else { opts.len() };
+            opts.insert(at, (case_variant(&d, &name), other.to_string()));
+        }
+    }
     // rarely: windows beyond 1 MiB on files beyond 1 MiB, options in either order
     let mut big_len = None;
     if d.chance("swarm.big_window", 1, 150) {
@@ -318,13 +356,13 @@ pub fn options(_tier: Tier, w: &Arc<World>) -> Scn {
     let all_ok = rec.iter().all(|(k, v)| numeric(v).map_or(false, |n| honourable(k, n) && n <= u64::MAX as u128));
     let expect_oack = !rec.is_empty() && all_ok;
     // keep the number of blocks moderate
-    let eff_b: usize = if expect_oack { rec.iter().find(|(k, _)| k == "blksize").and_then(|(_, v)| numeric(v)).map(|x| x as usize).unwrap_or(512) } else { 512 };
+    let eff_b: usize = if expect_oack { rec.iter().rev().find(|(k, _)| k == "blksize").and_then(|(_, v)| numeric(v)).map(|x| x as usize).unwrap_or(512) } else { 512 };
     let len = match big_len {
         Some(l) if expect_oack => l,
         _ => len.min(eff_b * 300),
     };
     let data = Arc::new(content(len, 7));
-    let tmo_s: u64 = if expect_oack { rec.iter().find(|(k, _)| k == "timeout").and_then(|(_, v)| numeric(v)).map(|x| x as u64).unwrap_or(5) } else { 5 };
+    let tmo_s: u64 = if expect_oack { rec.iter().rev().find(|(k, _)| k == "timeout").and_then(|(_, v)| numeric(v)).map(|x| x as u64).unwrap_or(5) } else { 5 };
     let mut fname = "data.bin";
     let path = dir.join("data.bin");
     if !write {
@@ -340,6 +378,12 @@ pub fn options(_tier: Tier, w: &Arc<World>) -> Scn {
     xc.timeout_ns = tmo_s.min(100_000) * SEC * 3 / 2;
     xc.resend_request = false;
     xc.retries = 3;
+    // a reader may acknowledge inside a window (RFC 7440 allows an early ACK): the window that follows
+    // still holds exactly the acknowledged number of blocks
+    let eff_w: u64 = if expect_oack { rec.iter().rev().find(|(k, _)| k == "windowsize").and_then(|(_, v)| numeric(v)).map(|x| x as u64).unwrap_or(1) } else { 1 };
+    if !write && eff_w > 1 && eff_w <= 16 && d.chance("swarm.reader.per_block_ack", 1, 4) {
+        xc.per_block_ack = true;
+    }
     // sometimes the client dies right after the handshake so that the retransmission interval shows
     let silent = d.chance("swarm.silent_after_handshake", 1, 3);
     if silent {
@@ -356,7 +400,7 @@ pub fn options(_tier: Tier, w: &Arc<World>) -> Scn {
         };
         xc.script.push((step, Adv::Silent));
     }
-    let desc = format!("options {} {} len={len} opts={opts:?} expect_oack={expect_oack} silent={silent}", srv.describe(), if write { "WRQ" } else { "RRQ" });
+    let desc = format!("options {} {} len={len} opts={opts:?} expect_oack={expect_oack} silent={silent} per_block_ack={}", srv.describe(), if write { "WRQ" } else { "RRQ" }, xc.per_block_ack);
     let kind = if write { Kind::Upload } else { Kind::Download };
     let (peer, client) = if write { w.add_peer(Box::new(Writer::new(xc, data.to_vec())), srv.v6, 0) } else { w.add_peer(Box::new(Reader::new(xc)), srv.v6, 0) };
     w.add_monitor(Box::new(OptMon::new(client, write, opts, len as u64)));
